@@ -289,7 +289,7 @@ class Ctx:
         if selftest and not out:
             # binding demonstration: corrupt one recorded observation, the trace must be rejected there
             rnd = random.Random(self.seed)
-            cand = [i for i, e in enumerate(events) if e.get('ev') == 'step']
+            cand = [i for i, e in enumerate(events) if e.get('ev') != 'reset']
             rnd.shuffle(cand)
             done = False
             for i in cand[:50]:
